@@ -503,15 +503,17 @@ def cases(tier):
                            "facs": nf, "align": al, "weight": 1 + L // 16 * ne})
     for mode in MODES:
         for ks in ("CTR128XTS256", "CTR256XTS512"):
-            for L in ((16, 48, U + 32) if q else (16, 17, 48, U, U + 32, 2 * U + 16)):
+            for L in ((1, 16, 48, U + 1, U + 32) if q else (1, 16, 17, 48, U, U + 1, U + 32, 2 * U + 16)):
                 for nb in (1, 2):
                     # a 4 KiB data unit is 256 cipher blocks: the quick tier crosses a unit boundary in XTS mode with one
                     # key size only; the CTR walk over a boundary is in the thorough tier
-                    if q and L > U and (mode != "xts" or ks == "CTR256XTS512" or nb == 2):
+                    if q and L > U + 1 and (mode != "xts" or ks == "CTR256XTS512" or nb == 2):
+                        continue
+                    if q and L == U + 1 and (mode not in ("xts", "bypass") or ks == "CTR256XTS512" or (mode == "xts" and nb == 2)):
                         continue
                     if q and L == 48 and mode == "xts":
                         continue
-                    if mode in ("ctr_noaddr", "ctr_ks", "bypass") and (nb == 2 or L > U + 32):
+                    if mode in ("ctr_noaddr", "ctr_ks", "bypass") and ((nb == 2 and L != U + 1) or L > U + 32):
                         continue
                     cs.append({"id": f"iee/{mode}/{ks}/L={L}/blobs={nb}", "h": "iee", "mode": mode, "keysize": ks, "L": L,
                                "blobs": nb, "weight": 1 + L // 16 * nb})
